@@ -18,8 +18,12 @@ abbrev RateStore := List (String × Int)
 def rateKey (peer : String) (asset op : Nat) : String :=
   peer ++ "." ++ toString asset ++ "." ++ toString op
 
-def storeGet (s : RateStore) (k : String) : Option Int := (s.find? (·.1 == k)).map (·.2)
-def storeDel (s : RateStore) (k : String) : RateStore := s.filter (·.1 != k)
+def storeGet : RateStore → String → Option Int
+  | [], _ => none
+  | (k', v) :: rest, k => if k' = k then some v else storeGet rest k
+def storeDel : RateStore → String → RateStore
+  | [], _ => []
+  | (k', v) :: rest, k => if k' = k then storeDel rest k else (k', v) :: storeDel rest k
 def storePut (s : RateStore) (k : String) (v : Int) : RateStore := (k, v) :: storeDel s k
 
 def defaultPeer : String := "default"
